@@ -5,8 +5,7 @@ From V.lib Require Import Base.
 From V.c13 Require Import C13Spec C13Model.
 From V.c15 Require Import C15Model C15Spec C15BitProofs C15AvcSpsProofs C15AvcPpsProofs
   C15HevcModel C15HevcSpec C15HevcBitProofs C15HevcSpsRpsProofs C15HevcPpsProofs C15HevcSliceBaseProofs
-  C15HevcSliceRpsProofs C15HevcSliceInterProofs C15HevcSliceMainProofs C15HevcSliceSizeProofs
-  C15HevcSliceExamples.
+  C15HevcSliceRpsProofs C15HevcSliceInterProofs C15HevcSliceMainProofs C15HevcSliceSizeProofs.
 
 Local Notation "x <- m ;; k" := (bind m (fun x => k))
   (at level 61, m at next level, right associativity).
@@ -48,12 +47,11 @@ Qed.
 
 Lemma parses_slice_mn raw sp pp v pos :
   hsps_valid sp = true -> hpps_valid pp = true -> hslice_valid sp pp v = true ->
-  hslice_rps_guard sp pp v = true ->
   parses raw (if negb (hs_dep pp v) then hparse_slice_main BR (hs_nt v) (expected_hsps sp) (expected_hpps pp)
               else ret hslice_main_zero) pos
          (opt_bits (hs_main pp v) (ser_hslice_main sp pp v)) (exp_main sp pp v).
 Proof.
-  intros Hs Hp Hv Hg. unfold hs_main at 1.
+  intros Hs Hp Hv. unfold hs_main at 1.
   destruct (hs_dep pp v) eqn:Hd; cbn [negb opt_bits].
   - apply parses_ret_eq. symmetry. apply exp_main_dep. unfold hs_main. rewrite Hd. reflexivity.
   - apply parses_slice_main; try assumption. unfold hs_main. rewrite Hd. reflexivity.
@@ -173,13 +171,12 @@ Qed.
 (* ------------------------------------------------------------------ the NAL unit *)
 Lemma hevc_slice_sz spsmap ppsmap sp pp v :
   hsps_valid sp = true -> hpps_valid pp = true -> hslice_valid sp pp v = true ->
-  hslice_rps_guard sp pp v = true ->
   ppsmap (sx_slice_pic_parameter_set_id v) = Some (expected_hpps pp) ->
   spsmap (sx_pps_seq_parameter_set_id pp) = Some (expected_hsps sp) ->
   nbytes_at (hraw_slice sp pp v) (hslice_size_bits sp pp v) < 4294967296 ->
   hparse_slice_br spsmap ppsmap (hnalu_slice sp pp v) = Ok (expected_hslice sp pp v).
 Proof.
-  intros Hs Hp Hv Hg Hpm Hsm Hsz.
+  intros Hs Hp Hv Hpm Hsm Hsz.
   assert (Hv' := Hv). unfold hslice_valid in Hv'. split_all.
   assert (Hid : sx_slice_pic_parameter_set_id v <= 63)
     by (unfold hpps_valid in Hp; cbv zeta in Hp; split_all; lia).
@@ -216,25 +213,10 @@ Qed.
 
 Lemma hevc_slice spsmap ppsmap sp pp v :
   hsps_valid sp = true -> hpps_valid pp = true -> hslice_valid sp pp v = true ->
-  hslice_rps_guard sp pp v = true ->
   ppsmap (sx_slice_pic_parameter_set_id v) = Some (expected_hpps pp) ->
   spsmap (sx_pps_seq_parameter_set_id pp) = Some (expected_hsps sp) ->
   hparse_slice_br spsmap ppsmap (hnalu_slice sp pp v) = Ok (expected_hslice sp pp v).
 Proof.
-  intros Hs Hp Hv Hg Hpm Hsm.
+  intros Hs Hp Hv Hpm Hsm.
   apply hevc_slice_sz; try assumption. apply hslice_size_lt; assumption.
-Qed.
-
-(* ------------------------------------------------------------------ the known finding C15-F11 *)
-Lemma hevc_slice_rps_refuted :
-  exists sp pp v,
-    hsps_valid sp = true /\ hpps_valid pp = true /\ hslice_valid sp pp v = true
-    /\ hparse_slice_br (fun id => if id =? sx_sps_seq_parameter_set_id sp then Some (expected_hsps sp) else None)
-                       (fun id => if id =? sx_pps_pic_parameter_set_id pp then Some (expected_hpps pp) else None)
-                       (hnalu_slice sp pp v)
-       <> Ok (expected_hslice sp pp v).
-Proof.
-  exists ex_hsps, ex_hpps_r, ex_hslice_r.
-  split; [vm_compute; reflexivity|]. split; [vm_compute; reflexivity|]. split; [vm_compute; reflexivity|].
-  vm_compute. discriminate.
 Qed.
